@@ -8,18 +8,19 @@ class BoundCallable(CanCustomize, object):
         self.__executor = executor
         self.__fn = fn
 
-        # Layers added with with_*() after bind() inherit the executor's name,
-        # as they do when added before bind().
-        for name_attr in ("_name", "_CustomizableThreadPoolExecutor__name"):
-            if hasattr(executor, name_attr):
-                self._name = getattr(executor, name_attr)
-                break
-
         try:
             update_wrapper(self, fn)
         except AttributeError:
             # Update wrapper if we can, but not fatal if we can't
             pass
+
+        # Layers added with with_*() after bind() inherit the executor's name,
+        # as they do when added before bind().  (Set after update_wrapper, which
+        # copies the callable's own attributes onto this object.)
+        for name_attr in ("_name", "_CustomizableThreadPoolExecutor__name"):
+            if hasattr(executor, name_attr):
+                self._name = getattr(executor, name_attr)
+                break
 
     def __call__(self, *args, **kwargs):
         return self.__executor.submit(self.__fn, *args, **kwargs)
